@@ -16,11 +16,36 @@ func init() {
 				return Step{}, false
 			}
 			k := ks[r.Intn(len(ks))]
+			T := []int{4095, 4096, 4097, 4096, 1, 65535}[r.Intn(6)]
+			// an array chunk whose backing array has room beyond 4096 values (left behind by an in-place
+			// union, or by growth) is the interesting one for "just above the threshold"
+			if r.Bool() {
+				func() {
+					defer func() { recover() }()
+					for off := 0; off < len(w.B); off++ {
+						sl := (b + off) % len(w.B)
+						for _, c := range w.B[sl].BM.VerifChunks() {
+							if c.Kind == 1 && c.Cap > 4097 && !c.NeedCOW && T <= 4097 {
+								b, o = sl, w.B[sl]
+								k = c.Key
+							T = 4097 + r.Intn(c.Cap-4097+1)
+							if T > 4400 {
+								T = 4097 + r.Intn(300)
+							}
+								w.probe("thresh-array-with-spare-capacity")
+								return
+							}
+						}
+					}
+				}()
+			}
 			c := o.M.ChunkCard(k)
 			words := o.M.ChunkWords(k)
+			if words == nil {
+				return Step{}, false
+			}
 			base := uint64(k) << 16
 			has := func(i int) bool { return words[i>>6]&(1<<(uint(i)&63)) != 0 }
-			T := []int{4095, 4096, 4097, 4096, 1, 65535}[r.Intn(6)]
 			switch {
 			case c > T && T >= 1:
 				// remove a suffix or a prefix so that exactly T values remain
@@ -539,6 +564,34 @@ func init() {
 			steps = append(steps, Step{Op: "rt64", S: []int{recv, src}, A: []uint64{uint64(r.Intn(4)), uint64(r.Intn(4)), r.U64(), 1}})
 			w.pending = append(w.pending, steps[1:]...)
 			w.probe("reuse64-scenario")
+			return steps[0], true
+		},
+		exec: func(w *World, st *Step) {}})
+}
+
+func init() {
+	// capflip: an in-place union of two sizeable array chunks leaves the receiver's chunk with a
+	// backing array much larger than its contents; then bring it just across a threshold
+	reg(&opDef{name: "capflip", tag: "C02",
+		gen: func(w *World, r *Rng) (Step, bool) {
+			a, b := w.slot(r), w.slot(r)
+			if a == b {
+				b = (a + 1) % len(w.B)
+			}
+			k := w.key(r)
+			steps := []Step{
+				{Op: "removerange", S: []int{a}, A: []uint64{uint64(k) << 16, (uint64(k) + 1) << 16}},
+				{Op: "addmany", S: []int{a}, A: []uint64{uint64(k), 0, uint64(700 + r.Intn(1500)), r.U64()}},
+				{Op: "removerange", S: []int{b}, A: []uint64{uint64(k) << 16, (uint64(k) + 1) << 16}},
+				{Op: "addmany", S: []int{b}, A: []uint64{uint64(k), 0, uint64(700 + r.Intn(1500)), r.U64()}},
+				{Op: "ibinop", S: []int{a, b}, A: []uint64{1}},
+				{Op: "gen:thresh"},
+			}
+			if r.Bool() {
+				steps = append(steps, Step{Op: "gen:thresh"})
+			}
+			w.pending = append(w.pending, steps[1:]...)
+			w.probe("capflip-scenario")
 			return steps[0], true
 		},
 		exec: func(w *World, st *Step) {}})
